@@ -218,6 +218,15 @@ def run_case(ck, desc):
             lo, hi = 0.0, np.inf
         rng = np.random.default_rng(int(M * 1e6) % (2**32))
         yn = y * (1 + desc["noise"] * rng.standard_normal(len(y)))
+        if desc["noise"] > 0 and len(t) > 20:
+            # two gauges per day: some time stamps occur twice with different readings, and the
+            # records are not in time order - every record counts in the least-squares optimum
+            dup = rng.choice(len(t), size=len(t) // 4, replace=False)
+            t = np.concatenate([t, t[dup]])
+            yn = np.concatenate([yn, yn[dup] * (1 + 0.05 * rng.standard_normal(len(dup)))])
+            perm = rng.permutation(len(t))
+            t, yn = t[perm], yn[perm]
+            ck.count("fits_with_repeated_time_stamps")
         fo = ForecasterOnePhase(f, Bounds(M=(lo, hi), tau=(1e-10, np.inf)))
         try:
             with warnings.catch_warnings():
